@@ -26,7 +26,7 @@ LEVEL_TEXT = ("Real end-to-end runs on random coastlines (islands, one-cell chan
 LEVEL_NOTE = "The valid region and sea cells are computed independently from the grid file (mask_rho, subgrid limits). Trusts the spied velocities as the scheme's output (their correctness is C01/C02)."
 RULE = ("case = world (mask, flow, subgrid) x run (scheme, diffusion, release, IBM schedule, layout). Non-trivial: at least one move cancelled by land or one particle killed at the "
         "open boundary or one inactive particle held; distinct by case parameters.")
-MANDATORY = ["packed_positions_in_records_compared_with_the_state", "inactive_particles_followed_over_the_restart", "lonlat_release_on_off_diagonal_subgrid", "move_ending_exactly_on_a_land_cell_edge", "warm_start_records_checked_against_earlier_deaths", "record_after_everybody_died", "records_checked_against_deaths", "moved", "cancelled_by_land", "killed_at_boundary", "inactive_held", "diffusion_on", "scheme_EF", "scheme_RK2", "scheme_RK4",
+MANDATORY = ["earlier_run_on_files_of_the_same_names_without_land", "subgrid_upper_limits_negative_on_a_non_square_grid", "packed_positions_in_records_compared_with_the_state", "inactive_particles_followed_over_the_restart", "lonlat_release_on_off_diagonal_subgrid", "move_ending_exactly_on_a_land_cell_edge", "warm_start_records_checked_against_earlier_deaths", "record_after_everybody_died", "records_checked_against_deaths", "moved", "cancelled_by_land", "killed_at_boundary", "inactive_held", "diffusion_on", "scheme_EF", "scheme_RK2", "scheme_RK4",
              "tracker_updates", "records_checked", "release_near_rim", "subgrid", "dense", "one_cell_channel", "release_event_adding_nobody", "reversed_time"]
 ASSUMPTIONS = ["release positions in sea cells of the valid region (as the property quantifies)"]
 TIMEOUT = {"quick": 900, "thorough": 3400}
@@ -170,7 +170,11 @@ def build(case: dict[str, Any]):
         for r_ in relrows:
             r_[2] = float(min(max(r_[2], xlo + 0.01), xhi - 0.01))
             r_[3] = float(min(max(r_[3], ylo + 0.01), yhi - 0.01))
-    run = dict(start=start, stop=str(tadd(start, sg * nsteps * dt)), dt=dt, reversed=rev, advection=case["scheme"], diffusion=case["diffusion"], subgrid=case["subgrid"],
+    sub_spelled = case["subgrid"]
+    if sub_spelled and case["idx"] % 5 in (2, 3):
+        # the same subgrid with its upper limits counted from the far edge (negative values, as examples/lakselus writes them); the grids are not square
+        sub_spelled = [sub_spelled[0], sub_spelled[1] - imax, sub_spelled[2], sub_spelled[3] - jmax]
+    run = dict(start=start, stop=str(tadd(start, sg * nsteps * dt)), dt=dt, reversed=rev, advection=case["scheme"], diffusion=case["diffusion"], subgrid=sub_spelled,
                release=dict(columns=relcols, rows=relrows, header=True),
                ibm=dict(module=C.REC_IBM, kill=kill, deactivate=deact, log=False),
                output=dict(period=dt * 2, layout=case["layout"]))
@@ -357,6 +361,17 @@ def run_case(case: dict[str, Any], wd: Path) -> dict[str, Any]:
     if packed:
         # positions stored packed (integer type + scale_factor, as in examples/killer/dense.yaml): the record must still report every particle in the cell it is in
         scn["run"]["output"]["instance"] = dict(pid="i4", X=dict(datatype="i4", scale_factor=1.0e-4), Y=dict(datatype="i4", scale_factor=1.0e-4), Z="f8")
+    if case["idx"] % 6 == 0 and case["land"] and not case.get("warm"):
+        # history: an earlier run in this process used files of the same names that had no land at all
+        import shutil  # noqa: PLC0415
+
+        pre_scn = build(dict(case, land=[]))[0]
+        pre, _cp, _wp = run_scenario(pre_scn, wd)
+        for f_ in pre.outputs:
+            Path(f_).unlink(missing_ok=True)
+        sit["earlier_run_on_files_of_the_same_names_without_land"] = int(pre.ok)
+        if not pre.ok:
+            shutil.rmtree(wd / "world", ignore_errors=True)
     snaps: list[dict[str, Any]] = []
     with Hooks() as hk:
         install_tracker_monitor(hk, M, box, float(case["dt"]), case["dx"], case["dx"], V, sit, cnt, desc)
@@ -370,6 +385,7 @@ def run_case(case: dict[str, Any], wd: Path) -> dict[str, Any]:
     sit["diffusion_on"] = int(case["diffusion"] > 0)
     sit["release_near_rim"] = near_rim
     sit["subgrid"] = int(case["subgrid"] is not None)
+    sit["subgrid_upper_limits_negative_on_a_non_square_grid"] = int(bool(scn["run"].get("subgrid")) and scn["run"]["subgrid"][1] < 0 and case["imax"] != case["jmax"])
     sit["dense"] = int(case["layout"] == "dense")
     sit["one_cell_channel"] = int(case["mask_kind"] in (1, 3))
     sit["release_event_adding_nobody"] = int(case["idx"] % 2 == 0)
